@@ -71,6 +71,20 @@ func NewPool(ctx ...context.Context) *Pool {
 func (p *Pool) Add(ctx context.Context) *Pool {
 	p.lock.Lock()
 	defer p.lock.Unlock()
+	// Ignore the context if every context currently in the pool has ended: the
+	// watcher is about to cancel the pool (it may not have woken up yet) and a
+	// late addition must not revive it.
+	live := false
+	for _, ch := range p.pool {
+		select {
+		case <-ch:
+		default:
+			live = true
+		}
+	}
+	if !live {
+		return p
+	}
 	select {
 	case <-p.Done():
 	case <-p.closed:
